@@ -10,7 +10,7 @@ rm -rf "$SV"; git -C /repo worktree remove --force "$WT" 2>/dev/null
 git -C /repo worktree add --detach "$WT" HEAD -q || exit 3
 git -C "$WT" apply "$PATCH" || { echo "$NAME PATCH-DOES-NOT-APPLY"; git -C /repo worktree remove --force "$WT"; exit 4; }
 mkdir -p "$SV"
-rsync -a --exclude .git --exclude out --exclude evidence /verif/ "$SV/"
+rsync -a --exclude /.git --exclude /out --exclude /evidence /verif/ "$SV/"
 export MC_ALT_REPO="$WT"
 CAUGHT=""; MACH=""
 cd "$SV"
